@@ -60,10 +60,12 @@ PortIn(c, port) ==
     [] c.io.ik = "dumb" -> LET x == IF port < c.io.len /\ port \in DOMAIN c.iom
                                     THEN c.iom[port] ELSE 0
                            IN [c EXCEPT !.v = x, !.pio = Append(@, <<0, port, x>>)]
+    \* the mini CP/M console: every read answers 0 (and only produces a warning)
+    [] c.io.ik = "console" -> [c EXCEPT !.v = 0, !.pio = Append(@, <<0, port, 0>>)]
 
 PortOut(c, port, x) ==
   CASE c.io.ik = "nil"  -> c
-    [] c.io.ik = "hash" -> [c EXCEPT !.pio = Append(@, <<1, port, x>>)]
+    [] c.io.ik \in {"hash", "console"} -> [c EXCEPT !.pio = Append(@, <<1, port, x>>)]
     [] c.io.ik = "dumb" -> [c EXCEPT !.pio = Append(@, <<1, port, x>>),
                                      !.iom = IF port < c.io.len THEN (port :> x) @@ @ ELSE @]
 
